@@ -128,9 +128,11 @@ def _grid_spec(rng, game):
                 rows.append(r)
         elif name == "svs":
             seen = {}
-            for _ in range(rng.choice([0, 1, 2, 3])):
+            for _ in range(rng.choice([0, 1, 2, 3, 4, 5])):
                 r = {k: M.rand_val(rng, k, v[0]) for k, v in props.items()}
                 r["offset"] = t()
+                if rng.random() < 0.6:
+                    r["multiplier"] = rng.choice([0.5, 0.75, 1.0, 2.0])           # values that come back later in the chart
                 r["multiplier"] = seen.setdefault(r["offset"], r["multiplier"])   # coincident SVs agree
                 rows.append(r)
         spec["lists"][name] = {"rows": rows, "labels": "default"}
@@ -182,7 +184,7 @@ def generate(rng, tier):
     # (what sorted(), reverse slicing or a filter leave behind): label-vs-position slips only show there
     for game in M.GAMES:
         for conv in CONV[game]:
-            for perm in ("reverse", "shuffle"):
+            for perm in ("reverse", "shuffle", "shuffle", "shuffle"):
                 cases.append({"game": game, "op": "convert", "map": _grid_spec(rng, game), "map2": _grid_spec(rng, game),
                               "perm": perm, "pseed": rng.randint(0, 10 ** 6), "conv": conv, "override": None, "keep_labels": True})
     return cases
